@@ -15,9 +15,11 @@ FN = {"ADD": "mzd_add", "COPY": "mzd_copy", "TRANSPOSE": "mzd_transpose", "MUL_N
       "SOLVE_LEFT": "mzd_solve_left", "PLUQ_SOLVE_LEFT": "mzd_pluq_solve_left"}
 
 
-def wrapper_groups(props=("C11",)):
+def wrapper_groups(props=("C11",), tier="quick"):
     gs = []
     for w in WRAP:
+        if w == "TRANSPOSE" and tier == "quick":
+            continue   # measured 650 s: the non-dying branch executes the whole transpose on symbolic dimensions; thorough tier only
         gs.append(Group(gid="W." + FN[w], props=list(props), harness="c11_wrappers.c", function=FN[w] + " (dimension check dominates every access)", layer="W", defines={"H_" + w: None},
                         tus=layer_s.ALL_TUS + ["strassen"], native_tus=[], unwind=2, bounded=False,
                         bound_note="(dimensions symbolic up to 2^20, operand storage dangling; no loop may be entered before the check)", timeout=900, mem_gb=16, object_bits=10))
@@ -26,8 +28,8 @@ def wrapper_groups(props=("C11",)):
 
 def groups(tier, seed):
     from checks import C13, C08
-    gs = wrapper_groups() + layer_s.strassen_groups(["C11", "C01", "C09", "C12"])
+    gs = wrapper_groups(tier=tier) + layer_s.strassen_groups(["C11", "C01", "C09", "C12"])
     # carriers: a sample of kernel contracts whose built-in safety obligations count for C11
-    car = [g for g in C13.rowop_groups("quick") if ".view1" in g.gid and ("x200" in g.gid or "x641" in g.gid or "x65" in g.gid)]
-    car += [g for g in C08.move_groups("quick") if "_mzd_add.2x637" in g.gid or "mzd_transpose.70x70.null" in g.gid or "mzd_submatrix.2x61-at-1,3" in g.gid]
+    car = [g for g in C13.rowop_groups("quick") if ".view1" in g.gid and ("x200" in g.gid or "x320" in g.gid or "x65" in g.gid)]
+    car += [g for g in C08.move_groups("quick") if "_mzd_add.2x573" in g.gid or "mzd_transpose.17x65.null" in g.gid or "mzd_submatrix.2x61-at-1,3" in g.gid]
     return with_canaries(gs) + car
